@@ -400,6 +400,22 @@ def tr_encode(tr, epi=None, xtop=None, topreq=None, model='default', mdl=None, o
                 out['g2'] = {'top': ab.atom(g2.top), 'tr': [ab.triple(x) for x in g2.triples]}
         else:
             out['re'] = _decode_err(re_, {'ok': False, 'exc': ''})
+    # the same through the public entry points penman.encode / penman.decode (and the codec object)
+    out['api'] = {'ok': True, 'exc': '', 'text': '', 'codec_text': '', 'g2': {'top': ab.NULL, 'tr': []}}
+    if op == 'configure':
+        ok, s_api = guarded(penman.encode, g, top=topreq, model=m, indent=None)
+        ok2, s_codec = guarded(lambda: penman.PENMANCodec(model=m).encode(g, top=topreq, indent=None))
+        if ok and ok2:
+            out['api']['text'], out['api']['codec_text'] = s_api, s_codec
+            ok3, g3 = guarded(penman.decode, s_api, model=m)
+            if ok3:
+                out['api']['g2'] = {'top': ab.atom(g3.top), 'tr': [ab.triple(x) for x in g3.triples]}
+            else:
+                out['api'].update(ok=False, exc='decode:' + excname(g3))
+        else:
+            out['api'].update(ok=False, exc='encode:' + excname(s_api if not ok else s_codec))
+    else:
+        out['api'].update(text=out['text'], codec_text=out['text'], g2=out['g2'])
     t['out'] = out
     return t
 
